@@ -70,7 +70,7 @@ CLAIMED = {
                 'C05_load_complete_save cover the other clauses. Tied to the tree by (T) the traced order of real file effects of '
                 'save() = saveSteps, and (D) random + exhaustive crash-point histories on real directories with injected crashes.',
         'note': 'crash = BaseException before/inside the k-th file effect, earlier effects durable and ordered; key scheme '
-                '(to_dict/from_dict) covered by the save->load exactness oracle, not yet by a theorem; one open known finding (time series)',
+                '(to_dict/from_dict) modelled by Model/NpyKeys with the C05_keys_* theorems (incl. the time_series key); no open known finding',
         'technique': 'Lean 4 proof (directory-machine invariant over histories x crash points) + traced-effect tie + differential crash-injection histories',
         'design': '4/C05',
     },
@@ -279,6 +279,72 @@ ADDENDA = {
 for _p, (_t, _n) in ADDENDA.items():
     if _p in CLAIMED:
         CLAIMED[_p]['text'] = CLAIMED[_p]['text'] + ' THIRD SESSION: ' + _t
+        if _n:
+            CLAIMED[_p]['note'] = CLAIMED[_p]['note'] + '; ' + _n
+
+
+# fourth session: what was added per property (appended to the text / note of the entry)
+ADDENDA4 = {
+    'C01': ('C01_assign_complete / C01_assign_sound (material assignment for several one-material sections on disjoint groups, any table orders; '
+            'Model/FistrSections), C01_assign_dict_counterexample, C01_split_initial_counterexample; two further D ties (section / material lines '
+            'string-identical, assignOfRead on the written text = the reader\'s elemental data); structured fields (tiny-distinct, near-uniform), '
+            'dtype / layout, > 65536 rows per block, variant G7 (split !INITIAL CONDITION: repaired e7e0a06).',
+            'C01_roundtrip itself covers one section; several sections are covered by the assignment theorems + ties'),
+    'C02': ('C02_res_glob_any_stem, C02_res_glob_listing, C02_res_file_name (Model/ResDir: which files of a directory read_directory takes for result '
+            'files; tied on the real directory listing, c02.find); directory layout as an input (independent mesh / control / result stems, bystander '
+            'files), variable names that are not identifiers.', ''),
+    'C03': ('C03_ngroup_layout, C03_ngroup_layout_independent (every chunking of a member list into lines / blocks denotes the member list), '
+            'C03_ngroup_first_id_counterexample, C03_ngroup_ragged_counterexample_upstream (Model/FistrCntGroups; the model reads the groups from the mesh '
+            'TEXT, c03.readfiles); ragged !NGROUP blocks repaired e5dce34.', ''),
+    'C04': ('C04_align_by_key, C04_align_any_sign, C04_dense_table_counterexample (Model/UcdAlignInt: _align_data over integer ids of any sign; tie '
+            'c04.align); ids <= 0 / at the int32 limits, narrow id dtypes, n_element = n_node, derived objects, > 65536 rows in all four tables.',
+            'the character-level model has natural-number ids: objects with an id <= 0 are judged by the oracle, the fresh-object comparison and c04.align'),
+    'C05': ('Read options as history dimensions: C05_read_opt_default / _inv / _safe, C05_history_inv_opt, C05_crash_safe_opt, '
+            'C05_mesh_only_by_existence_counterexample (readOpt / cacheTrusted / xstep); staged saves: C05_staged_sorted_counterexample, '
+            'C05_staged_marker_last_good; key scheme extended by the time_series key: all C05_keys_* re-proved, C05_keys_time_series_flag_roundtrip, '
+            'C05_keys_counterexample_no_flag (Cfg.tsFlag detected from behaviour). F6d (time series) repaired 7a818e7, solution_type default '
+            'repaired 153b989: NO open finding is left for C05; time series are inside the exactness oracle and the histories.',
+            'elemental time series only on single-type meshes (femio cannot construct them over several types)'),
+    'C06': ('Variable names that are arbitrary blank-free tokens (punctuation, names differing only in such a character) in every stream.', ''),
+    'C07': ('Stream file-kind: pre-existing files that are empty (the mkstemp / touch placeholder), one newline, binary, or a symbolic link whose target is '
+            'part of the byte-for-byte snapshot.', ''),
+    'C08': ('C08_unsigned_guard_vacuous, C08_signed_guard_sound, C08_counterexample_unsigned_shortcut, C08_layout_C_roundtrip, C08_layout_A_symmetric, '
+            'C08_counterexample_layout_A (Model/AttrLayout), C08_update_request_order (the table after an update is invariant under permuting the '
+            'request), C08_counterexample_mask_update; by-id oracle after every public update at every level (= C08_update_spec on the real object); dtype and '
+            'memory layout in every stream. F20 (narrow request id dtype wraps stored ids) repaired 48f1102.', ''),
+    'C09': ('C09_table_by_key, C09_filter_keeps_keys, C09_table_rekey_by_name_counterexample, C09_table_rekey_blind (variable tables keyed by the table KEY, '
+            'not the attribute name); stream chain (operations on derived / live objects judged against a snapshot), ids <= 0, narrow dtypes, tet + tet2, '
+            'n_node = n_element. Regression 9dd4ddb found by this check.', ''),
+    'C10': ('C10_obj_blockwise, C10_obj_roundtrip_blockwise (a line-terminated writer is independent of the cut into blocks: the character-level round trip '
+            'holds at any size), C10_obj_blockwise_joined_counterexample; size-boundary stream (> 2^16 nodes and facets in every quick run, exactly 2^k +- in '
+            'thorough), ids <= 0, independent OBJ parser.', 'the model is not run on the large meshes (oracle with numpy)'),
+    'C11': ('Salvaged round-4 strengthening: polygon meshes with non-convex / hanging-node polygons from every start node.', ''),
+    'C12': ('C12_hex_sign_meanplane (sign rule under the mean-plane hypothesis: C12_hex_sign_convex is vacuous on skew faces), '
+            'C12_first_node_reference_counterexample, C12_planar_reference_point; stream warped-layers with exact vector-area closure (c12.meanplane per cell), '
+            'square-shapes.', 'hull convexity => mean-plane hypothesis is not proved; assertions only where both hold'),
+    'C13': ('C13_nhop_add, C13_nhop_double (reachability within a+b hops = Boolean product), C13_nhop_binary_power_counterexample; hop counts drawn relative to '
+            'the graph diameter, large-diameter chains / rings, the reachability oracle is the recurrence, numpy hop counts, ids <= 0, derived objects.', ''),
+    'C14': ('Every keyword combination of convert_nodal2elemental (calc_average + ravel, the plain gather in connectivity order).', ''),
+    'C15': ('C15_row_weight_scale, C15_integer_affine_field, C15_det_underflow_counterexample, C15_held_results_stable, C15_work_array_counterexample; stream '
+            'kernel-scale (absolute length unit x default alpha: weights down to 1e-260), every returned array held and re-compared after every later call, '
+            'graded meshes, integer / float32 fields.', ''),
+    'C16': ('C16_ub_needs_abs_counterexample, C16_hausdorff_positive, C16_hausdorff_directed_not_symmetric; deliberate scene styles near-tie and near-identical, '
+            'three public Hausdorff questions per scene (symmetric, directed, roles exchanged), absolute-scale stream.', ''),
+    'C17': ('Tie S (DESIGN 2.3b): 25 TT_ theorems (Props/TensorTie) - the tensor helpers EXECUTED on symbolic components (harness/gen_tensor_kernels.py -> '
+            'Gen/TensorKernels.lean, regenerated on every run) = the model functions, by ring over every field; C17_align_cast_exact, '
+            'C17_align_cast_roundoff_counterexample (binary64 model Model/TensorRound, tie R bit for bit with 4 ulp slack); mixed-dtype align_nnz lists with '
+            'deliberately inexact dummy sums, structured special tensors, large sparse shapes.', ''),
+    'C18': ('C18_table_current, C18_stale_table_counterexample (Props/C18Derived); stream derived (objects obtained by chains of public calls), observe_at '
+            'evaluated on the returned object; resolve_degeneracy stale tables repaired 4d81e0a.', ''),
+    'C19': ('C19_failed_query_invisible, C19_partial_table_counterexample, C19_make_positive_drops_table, C19_make_positive_flip_counterexample, '
+            'C19_stored_options_ignored_counterexample (Model/StoredMetric); provenance carries the options of the storing query / whether it failed / whether a '
+            'modifier wrote the variable: new violation classes history-dependent, left-by-failed-query, modifier-rewrote-derived; user-variable layouts incl. '
+            'one-step series compared as stored.', 'the StoredMetric model is tied by the oracle only'),
+    'C20': ('@C20@', ''),
+}
+for _p, (_t, _n) in ADDENDA4.items():
+    if _p in CLAIMED and _t and not _t.startswith('@'):
+        CLAIMED[_p]['text'] = CLAIMED[_p]['text'] + ' FOURTH SESSION: ' + _t
         if _n:
             CLAIMED[_p]['note'] = CLAIMED[_p]['note'] + '; ' + _n
 
